@@ -43,7 +43,9 @@ two_elem = st.one_of(
     st.sampled_from(["ab", "xy"]),
 )
 non_pair = st.one_of(st.integers(-5, 5), st.sampled_from(["a", "abc", ""]), st.none(),
-                     st.tuples(scalars, scalars, scalars), st.tuples(scalars), st.lists(scalars, max_size=1))
+                     st.tuples(scalars, scalars, scalars), st.tuples(scalars), st.lists(scalars, max_size=1),
+                     # empty and falsy elements: the values a "nothing there" sentinel is most easily confused with
+                     st.sampled_from([(), [], {}, frozenset(), 0, False, 0.0, b"", ""]))
 anyval = st.one_of(scalars, two_elem, st.lists(scalars, max_size=3), st.dictionaries(st.sampled_from("abc"), scalars, max_size=2))
 hashable_val = st.one_of(st.integers(-5, 5), st.sampled_from(["a", "ab", "abc"]), st.none(), st.tuples(st.integers(0, 3), st.integers(0, 3)))
 keys = st.one_of(st.sampled_from(["a", "b", "c", "_p", "ab"]), st.integers(0, 4), st.tuples(st.integers(0, 2), st.integers(0, 2)))
@@ -169,7 +171,7 @@ def case(draw):
         el = st.tuples(hashable_val, hashable_val) if hashable else st.one_of(st.tuples(scalars, anyval), st.lists(scalars, min_size=2, max_size=2))
         content = draw(st.lists(el, min_size=1, max_size=4))
     elif cat == "nonpairs":
-        el = st.one_of(st.integers(-5, 5), st.sampled_from(["a", "abc"]), st.tuples(st.integers(0, 2),)) if hashable else non_pair
+        el = st.one_of(st.integers(-5, 5), st.sampled_from(["a", "abc"]), st.tuples(st.integers(0, 2),), st.just(())) if hashable else non_pair
         content = draw(st.lists(el, min_size=1, max_size=4))
     else:
         el = hashable_val if hashable else st.one_of(two_elem, non_pair)
